@@ -13,7 +13,8 @@ A prefix is three tokens `fam len hex` (hex = the 4 or 16 address octets).
   adjstale n T1 … Tn                    AdjRib.StaleAll on those families
   adjdropstale n T1 … Tn                AdjRib.DropStale on those families
   new T mode                            (re)create table T empty; mode 0 = Loc-RIB table, 1 = Adj-RIB table
-  ann T fam len hex src rid rank tag rej
+  ann T fam len hex src rid rank tag rej attr lid0   (attr: the community; lid0: the local id the path OBJECT carries when it is handed in, 0 for a new object)
+  mchg T                                → the multipath report of GetChanges for the LAST ann / wd on table T: `nil`, the new set, or `W:<path>` when the set became empty
   wd  T fam len hex src rid dropped
   get T fam len hex                     → destination or `nil`
   list T                                → `n=<k>` + destinations sorted
@@ -128,13 +129,21 @@ def step (s : St) (ts : List String) : St × List String :=
   | "adjstale" :: rest => (putAdj s (adjRibStaleAll (takeList rest).1 (adjView s)), [])
   | "adjdropstale" :: rest => (putAdj s (adjRibDropStale h (takeList rest).1 (adjView s)), [])
   | ["new", t, mode] => (putTab s { id := nat! t, adj := mode == "1", d := [], accepted := 0 }, [])
-  | ["ann", t, fam, len, hex, src, rid, rank, tag, rej] =>
+  | ["mchg", t] =>
+    match findTab s (nat! t) with
+    | none => (s, ["bad-op"])
+    | some tb =>
+      match multiReport tb.lastOld tb.lastNew with
+      | none => (s, ["nil"])
+      | some [] => (s, ["W:" ++ ",".intercalate ((tb.lastOld.take 1).map pathStr)])
+      | some m => (s, ["m=" ++ ",".intercalate (m.map pathStr)])
+  | ["ann", t, fam, len, hex, src, rid, rank, tag, rej, attr, lid0] =>
     match findTab s (nat! t) with
     | none => (s, ["bad-op"])
     | some tb =>
       let p := parsePfx fam len hex
       let a := ((s.srcs.find? (·.1 == nat! src)).map (·.2)).getD 0
-      let op := TOp.ann { src := nat! src, rid := nat! rid, rank := nat! rank, tag := nat! tag, lid := 0, rej := b! rej, addr := a }
+      let op := TOp.ann { src := nat! src, rid := nat! rid, rank := nat! rank, tag := nat! tag, lid := nat! lid0, rej := b! rej, addr := a, attr := nat! attr }
       if tb.adj then
         let old := ((get h tb.d p).getD (adjOps.fresh p))
         (putTab s { tb with d := update adjOps h tb.d p op, accepted := tb.accepted + adjAccDelta old op }, [])
